@@ -165,7 +165,13 @@ pub fn build_tx(sc: &Scenario, def: &TxDef, sender_nonce: u64, sender_balance: U
         nonce,
         chain_id,
         access_list,
-        gas_priority_fee: if tx_type >= 2 { Some(def.prio.unwrap_or(0) as u128) } else { None },
+        gas_priority_fee: if tx_type >= 2 {
+            let p = def.prio.unwrap_or(0);
+            // PRIO_OVER = deliberately above the max fee (invalid); everything else is clamped valid
+            Some(if p == PRIO_OVER { gas_price + 1 } else { (p as u128).min(gas_price) })
+        } else {
+            None
+        },
         blob_hashes: vec![],
         max_fee_per_blob_gas: 0,
         authorization_list,
